@@ -136,6 +136,10 @@ fn rows_of_ranges(rs: &[Range<u64>]) -> Vec<u64> {
     rs.iter().flat_map(|r| r.start..r.end).collect()
 }
 
+pub static CURRENT_STEP: std::sync::Mutex<String> = std::sync::Mutex::new(String::new());
+/// (indices of the take in progress, page starts of the file): kept for a panic that escapes the read
+pub static CURRENT_READ: std::sync::Mutex<(Option<Vec<u64>>, Vec<u64>)> = std::sync::Mutex::new((None, Vec::new()));
+
 /// every failing step (a failing write / open is a single failure whose message starts with WRITE / OPEN)
 pub async fn roundtrip(case: &Case, seed: u64) -> Vec<Failure> {
     let mut bad: Vec<Failure> = vec![];
@@ -147,6 +151,8 @@ pub async fn roundtrip(case: &Case, seed: u64) -> Vec<Failure> {
 
 async fn roundtrip_inner(case: &Case, seed: u64, bad: &mut Vec<Failure>) -> Result<(), String> {
     let mut rng = Rng::new(seed);
+    *CURRENT_STEP.lock().unwrap() = "write".to_string();
+    *CURRENT_READ.lock().unwrap() = (None, vec![]);
     let opts = FileWriterOptions { format_version: Some(case.version), data_cache_bytes: case.opts_cache, max_page_bytes: case.opts_maxp, keep_original_array: case.keep, ..Default::default() };
     let w = write_file(&case.schema, &case.batches, opts).await.map_err(|e| format!("WRITE {e}"))?;
     let total = case.total();
@@ -187,6 +193,8 @@ async fn roundtrip_inner(case: &Case, seed: u64, bad: &mut Vec<Failure>) -> Resu
     let bss = [1u32, 2, 3, 7, 16, 100, 1024, 100_000];
     macro_rules! check {
         ($cols:expr, $proj:expr, $params:expr, $rows:expr, $bs:expr, $what:expr, $idx:expr) => {
+            *CURRENT_STEP.lock().unwrap() = format!("[{io}] {} (batch_size {})", $what, $bs);
+            *CURRENT_READ.lock().unwrap() = ($idx, page_starts.clone());
             if let Err(e) = read_and_compare(&reader, case, $cols, $proj, $params, $rows, $bs, $what).await {
                 bad.push(Failure { is_read: true, msg: format!("[{io}] {e}"), indices: $idx, page_starts: page_starts.clone() });
             }
@@ -270,7 +278,13 @@ pub fn run_case(rt: &tokio::runtime::Runtime, case: &Case, seed: u64) -> Vec<Fai
             }
             v
         }
-        Err(p) => vec![Failure { is_read: false, msg: format!("PANIC {p}"), indices: None, page_starts: vec![] }],
+        Err(p) => {
+            let step = CURRENT_STEP.lock().unwrap().clone();
+            let (indices, page_starts) = CURRENT_READ.lock().unwrap().clone();
+            // the writer refuses some encoding hints by an assertion that says so
+            let tag = if step == "write" && p.contains("not yet supported") { "REJECTED " } else { "" };
+            vec![Failure { is_read: step != "write", msg: format!("{tag}PANIC during {step}: {p}"), indices, page_starts }]
+        }
     }
 }
 
